@@ -20,9 +20,9 @@ from vp.core import alphabet as al
 ID = "C02"
 LEVEL = "model_checking"
 RULE = (
-    "rotation vectors psi = m*d over the full product of 26 lattice + 3 seed-rotated generic directions d and the magnitude "
+    "rotation vectors psi = m*d over the full product of 26 lattice + 3 (thorough: 12) seed-rotated generic directions d and the magnitude "
     "ladder m in {0,1e-12,1e-9,1e-6,1e-3,.1,1,2,3,pi-1e-2,pi-1e-3,pi-1e-5,pi-1e-6,pi-1e-8,pi-1e-10,pi-1e-12,nextafter(pi,0)} "
-    "(+ {pi,4,5,6,2pi-1e-3} for T/T_inv only), per psi 4 increments psi_dot and 4 translations r; rotation matrices of all "
+    "(+ {pi,4,5,6,2pi-1e-3} for T/T_inv only; thorough adds 14 intermediate magnitudes), per psi 4 increments psi_dot and 4 translations r; rotation matrices of all "
     "quaternions (p0,p), p0 in {0,1e-12,1e-9,1e-6,1e-3,1,2}, p in {-2..2}^3 (874 letters) and the 24 proper signed permutation "
     "matrices, each also as SE(3) element with 2 translations.  A case is non-trivial if every routine of the property "
     "returned a value that was compared with its oracle"
@@ -43,11 +43,12 @@ PI = math.pi
 MAGS_LOG = [0.0, 1e-12, 1e-9, 1e-6, 1e-3, 0.1, 1.0, 2.0, 3.0, PI - 1e-2, PI - 1e-3, PI - 1e-5, PI - 1e-6, PI - 1e-8,
             PI - 1e-10, PI - 1e-12, float(np.nextafter(PI, 0))]
 MAGS_T = [PI, 4.0, 5.0, 6.0, 2 * PI - 1e-3]
+MAGS_MORE = [1e-10, 1e-8, 1e-7, 1e-5, 1e-4, 1e-2, 0.5, 1.5, 2.5, PI - 0.1, 3.5, 4.5, 5.5, 2 * PI - 1e-2]  # thorough tier
 P0S = [0.0, 1e-12, 1e-9, 1e-6, 1e-3, 1.0, 2.0]
 
 
-def directions(seed):
-    return al.lattice_dirs() + [al.generic_unit(seed, k) for k in range(3)]
+def directions(seed, tier="quick"):
+    return al.lattice_dirs() + [al.generic_unit(seed, k) for k in range(3 if tier == "quick" else 12)]
 
 
 def psi_dots(seed):
@@ -61,12 +62,14 @@ def translations(seed):
 
 def cases(tier, seed):
     out = []
-    D = directions(seed)
+    D = directions(seed, tier)
     mags = MAGS_LOG + MAGS_T
+    if tier != "quick":
+        mags = MAGS_LOG + MAGS_T + MAGS_MORE
     order = sorted(range(len(mags)), key=lambda i: (0 if mags[i] in (1.0, 0.0, 0.1, 2.0, 3.0) else 1, i))
     for mi in order:
         for di in range(len(D)):
-            out.append({"kind": "psi", "dir": di, "mag": mi, "m": mags[mi], "log_domain": mi < len(MAGS_LOG), "seed": seed})
+            out.append({"kind": "psi", "tier": tier, "dir": di, "mag": mi, "m": mags[mi], "log_domain": mags[mi] < PI, "seed": seed})
     for i0, p0 in enumerate(P0S):
         for p1 in range(-2, 3):
             out.append({"kind": "quatA", "p0": p0, "p1": p1, "seed": seed})
@@ -156,7 +159,7 @@ def check(case):
     outcome = []
 
     if kind == "psi":
-        d = directions(seed)[case["dir"]]
+        d = directions(seed, case.get("tier", "quick"))[case["dir"]]
         m = case["m"]
         psi = m * d
         a = float(np.sqrt(psi @ psi))
